@@ -138,6 +138,10 @@ def analyse_recurrence(sw: SaviSweep):
         if val_k[0] == "app" and val_k[1] == "where" and len(val_k[2]) == 3:
             m, c_, n_ = val_k[2]
             out["mask_ok"] = same(m, want_mask)
+            cached_ = sorted({t[1] for t in subterms(m) if t[0] == "sym" and isinstance(t[1], str) and t[1].startswith("self._")})
+            if not out["mask_ok"] and cached_:
+                raise AnalysisError(f"SemiAsyncValueIteration: the padding mask is read from solver state {cached_} that the sweep itself assigns (a cache): whether "
+                                    "it is the documented mask depends on what earlier calls stored; the rule gives no verdict")
             if not out["mask_ok"] and not any(t[0] == "app" and t[1].startswith("cmp") and any(u[0] == "app" and u[1] == "arange" for u in subterms(t)) for t in subterms(m)):
                 # not a comparison over the flat slot index at all (a table, a concatenation, a cumulative count, ..): the rule has no normal form
                 # for this way of building a mask, so it gives no verdict
